@@ -199,6 +199,40 @@ impl Workspace {
   }
 }
 
+/// Read-only view of the internal state, compiled only for verification harnesses.
+#[cfg(feature = "verif")]
+#[derive(Debug, Clone, PartialEq, Eq, PartialOrd, Ord, Hash)]
+pub struct VerifSnapshot {
+  /// (namespace, name) of the stored definitions, in order
+  pub definitions: Vec<(String, String)>,
+  /// key of the namespace index together with the (namespace, name) of the definitions it refers to, sorted
+  pub by_namespace: Vec<(String, (String, String))>,
+  /// key of the name index together with the (namespace, name) of the definitions it refers to, sorted
+  pub by_name: Vec<(String, (String, String))>,
+  /// keys of the deployed model evaluators, sorted
+  pub model_evaluators: Vec<String>,
+}
+
+#[cfg(feature = "verif")]
+impl Workspace {
+  /// Returns a copy of the keys held in every internal collection.
+  pub fn verif_snapshot(&self) -> VerifSnapshot {
+    let id = |d: &Arc<Definitions>| (d.namespace().to_string(), d.name().to_string());
+    let mut by_namespace: Vec<(String, (String, String))> = self.definitions_by_namespace.iter().map(|(k, d)| (k.clone(), id(d))).collect();
+    by_namespace.sort();
+    let mut by_name: Vec<(String, (String, String))> = self.definitions_by_name.iter().map(|(k, d)| (k.clone(), id(d))).collect();
+    by_name.sort();
+    let mut model_evaluators: Vec<String> = self.model_evaluators_by_name.keys().cloned().collect();
+    model_evaluators.sort();
+    VerifSnapshot {
+      definitions: self.definitions.iter().map(id).collect(),
+      by_namespace,
+      by_name,
+      model_evaluators,
+    }
+  }
+}
+
 #[cfg(test)]
 mod tests {
   use super::*;
